@@ -441,7 +441,6 @@ class Analyzer:
         self.changed = False
         self.frame = None
         self.stack = []
-        self.entry_name = ''
 
     # ---- regions --------------------------------------------------------------------------------------
     @staticmethod
@@ -755,7 +754,7 @@ class Analyzer:
     def ev_CXXNewExpr(self, n):
         kids = self.kids(n)
         if n.get('isPlacement'):
-            place = set(); content = set()
+            place = set(); content = set(); seen_place = False
             for c in kids:
                 if c.get('kind') in ('CXXConstructExpr', 'CXXTemporaryObjectExpr'):
                     v = self.ev_CXXConstructExpr(c, target=None)
@@ -763,10 +762,10 @@ class Analyzer:
                     continue
                 v = self.ev(c)
                 if strip_ref(tystr(c)).replace('const ', '').replace('volatile ', '').strip() == 'void *':
-                    place |= v.pts
+                    place |= v.pts; seen_place = True
                 else:
                     content |= v.pts
-            if not place:
+            if not seen_place:
                 raise Unsupported(f'placement new without a recognisable placement argument at {src_at(n)}')
             self.write('placement new', place, n)
             self.store(place, frozenset(content))
@@ -896,7 +895,7 @@ class Analyzer:
         if self.ptr_free(ty, strict=True):
             pts = set()
         self.store({region}, frozenset(pts))
-        if rec is None:
+        if rec is None and not self.short_type(ty).startswith('amc::') and kids:
             self.trusted[f'{self.short_type(ty)} (constructor)'] = self.trusted.get(f'{self.short_type(ty)} (constructor)', 0) + 1
         return Val(EMPTY, frozenset(pts))
 
@@ -1512,9 +1511,6 @@ def build_type_names(ix):
                 ix.type_to_record.setdefault(tystr(n), recs[0])
         for c in n.get('inner', []):
             walk(c, rec)
-    for n, _ in ix.records:
-        if n.get('_parent') is None or n['_parent'].get('kind') != 'LambdaExpr':
-            pass
     roots = [n for n in ix.decl.values() if n.get('_parent') is None]
     for r in roots:
         walk(r, None)
@@ -1542,22 +1538,6 @@ def template_args(rec):
             else:
                 out.append('?')
     return out
-
-
-def is_pattern(rec):
-    """a record that is the pattern of a class template (or nested in one): bodies are dependent, not analysable"""
-    p = rec
-    while p is not None:
-        par = p.get('_parent')
-        if p.get('kind') == 'CXXRecordDecl' and par is not None and par.get('kind') == 'ClassTemplateDecl':
-            return True
-        if p.get('kind') == 'ClassTemplatePartialSpecializationDecl':
-            return True
-        if p.get('kind') in ('FunctionTemplateDecl',) :
-            # a record inside the *pattern* of a function template: first child of the template is the pattern
-            pass
-        p = par
-    return False
 
 
 def in_dependent_context(n):
@@ -1636,7 +1616,6 @@ def generate(include):
     mutable_members = {}
     static_members = {}
     classes_seen = set()
-    copy_ctors = {}
 
     sig_at = {}
     # patterns first, so that every instantiated member is named by the signature written in the source
@@ -1748,6 +1727,18 @@ def emit(table, mutable_members, static_members):
     return '\n'.join(out) + '\n'
 
 
+def write_if_changed(path, text):
+    os.makedirs(os.path.dirname(path), exist_ok=True)
+    old = open(path).read() if os.path.exists(path) else None
+    changed = old != text
+    if changed:
+        tmp = path + f'.tmp{os.getpid()}'
+        with open(tmp, 'w') as f:
+            f.write(text)
+        os.replace(tmp, path)
+    return {'path': path, 'sha256': hashlib.sha256(text.encode()).hexdigest(), 'changed': changed}
+
+
 def main():
     ap = argparse.ArgumentParser()
     ap.add_argument('--repo', default=os.environ.get('AMC_REPO', '/repo'))
@@ -1756,6 +1747,7 @@ def main():
     a = ap.parse_args()
     inc = os.path.join(a.repo, 'include')
     status = {'ok': True, 'error': None, 'repo': a.repo}
+    path = os.path.abspath(os.path.join(a.out, 'Footprints.lean'))
     try:
         if not os.path.isdir(os.path.join(inc, 'amc')):
             raise Unsupported(f'{inc}/amc does not exist')
@@ -1763,20 +1755,17 @@ def main():
     except Unsupported as e:
         status['ok'] = False; status['error'] = str(e)
         print(f'TRANSLATION-BROKEN footprints: {e}', file=sys.stderr)
+        if not a.no_write:
+            # never leave the table of another tree behind: the generated file states that nothing could be established
+            refused = {'TRANSLATION REFUSED (no footprint could be established for the tree under check)':
+                       {'writes': {'translator/footprints.py refused: ' + str(e)[:400]: None}, 'n': 0, 'where': '?'}}
+            status['file'] = write_if_changed(path, emit(refused, {}, {}))
         print(json.dumps(status))
         sys.exit(2)
     text = emit(table, mm, sm)
-    path = os.path.abspath(os.path.join(a.out, 'Footprints.lean'))
     changed = False
     if not a.no_write:
-        os.makedirs(os.path.dirname(path), exist_ok=True)
-        old = open(path).read() if os.path.exists(path) else None
-        changed = old != text
-        if changed:
-            tmp = path + f'.tmp{os.getpid()}'
-            with open(tmp, 'w') as f:
-                f.write(text)
-            os.replace(tmp, path)
+        changed = write_if_changed(path, text)['changed']
     nonempty = {k: list(v['writes']) for k, v in table.items() if v['writes']}
     status.update({
         'file': {'path': path, 'sha256': hashlib.sha256(text.encode()).hexdigest(), 'changed': changed},
